@@ -107,6 +107,7 @@ def CacheGood (cfg : Cfg) (n : Node) (cache : WinMap) : Prop :=
 
 /-- What a query over blocks `≤ hi` needs from the index. -/
 structure Servable (cfg : Cfg) (n : Node) (hi : Nat) : Prop where
+  live : n.initErr = none
   running : Good n.chain cfg.W n.floor n.running.from_ n.running
   persisted : ∀ w, w % cfg.W = 0 → al cfg.W n.floor ≤ w → w ≤ hi → w ≠ n.running.from_ →
     ∃ a, n.persisted.lookup w = some a ∧ a.from_ = w ∧ Good n.chain cfg.W n.floor w a
@@ -116,6 +117,7 @@ theorem loadWindow_ok (cfg : Cfg) (n : Node) (hi : Nat) (cache : WinMap) (w : Na
     (hle : w ≤ hi) :
     ∃ a cache', loadWindow cfg n cache w = .ok (a, cache') ∧ Good n.chain cfg.W n.floor w a ∧ CacheGood cfg n cache' := by
   unfold loadWindow
+  simp only [hs.live]
   by_cases h1 : w = n.running.from_
   · refine ⟨n.running, cache, by simp [h1], ?_, hc⟩
     rw [h1]; exact hs.running
@@ -298,7 +300,7 @@ theorem windowsOf_form (W start to : Nat) :
 
 theorem Servable.mono {cfg : Cfg} {n : Node} {hi hi' : Nat} (hs : Servable cfg n hi) (h : hi' ≤ hi) :
     Servable cfg n hi' :=
-  ⟨hs.running, fun w h1 h2 h3 h4 => hs.persisted w h1 h2 (by omega) h4⟩
+  ⟨hs.live, hs.running, fun w h1 h2 h3 h4 => hs.persisted w h1 h2 (by omega) h4⟩
 
 theorem canonical_spec (cfg : Cfg) (n : Node) (f : Filter) (chunk limit start to skip : Nat)
     (hW : 1 ≤ cfg.W) (hto : to < n.chain.length) (hwf : ChainWF n.chain)
@@ -424,7 +426,7 @@ theorem collect_spec (cfg : Cfg) (f : Filter) (fromB toB chunk limit latest : Na
           · right; have := (h (by omega)).2; omega
         simp only [hne, Bool.false_eq_true, if_false]
         have hrec := ih { n with cache := (events cfg n f fromB toB tok chunk limit).2 } (some t)
-          hlen hwf ⟨hs.running, hs.persisted⟩ hcg
+          hlen hwf ⟨hs.live, hs.running, hs.persisted⟩ hcg
           (by show n.floor ≤ t.b; simp only [startOf] at h1 hfl ⊢; omega)
           (by simpa [skipOf, startOf] using hv)
           (by
